@@ -55,6 +55,7 @@ type Frame struct {
 	loopOrd   map[*ssa.BasicBlock]int
 	dead      bool
 	rangeComp map[ssa.Value]string
+	callCount map[string]int
 }
 
 type retInfo struct {
@@ -931,6 +932,17 @@ func (fr *Frame) enterLoop(li *loopInfo) {
 					mods.comps["W"] = true
 				}
 			case ssa.CallInstruction:
+				if cl, ok := s.(*ssa.Call); ok && fr.top && fr.contract != nil {
+					for _, ac := range fr.contract.AtCalls {
+						if strings.HasSuffix(calleeName(cl.Common()), ac.Callee) && fr.callOrdinal(cl, ac.Callee) == ac.N {
+							for _, g := range fr.contract.GhostVars {
+								if g.Name == ac.Var {
+									cells[fr.ghostCell(g.Name)] = nil
+								}
+							}
+						}
+					}
+				}
 				fr.callModsInto(mods, s.Common())
 				if _, isGo := s.(*ssa.Go); !isGo {
 					mods.comps["W"] = true
@@ -969,6 +981,10 @@ func (fr *Frame) enterLoop(li *loopInfo) {
 	}
 	sort.Strings(cns)
 	for _, n := range cns {
+		if cells[n] == nil { // ghost cell: sort already registered
+			fr.cur.set(n, c.fresh("hv."+shortName(n), compSorts[n]))
+			continue
+		}
 		fr.x.compSort(n, sortOf(cells[n]))
 		v := c.fresh("hv."+shortName(n), compSorts[n])
 		fr.cur.set(n, v)
@@ -1145,6 +1161,9 @@ func (fr *Frame) instr(in ssa.Instruction) {
 		fr.env[s] = c.define("phi", sortOf(s.Type()), t)
 	case *ssa.Call:
 		res := fr.call(s, s.Common())
+		if fr.top && fr.contract != nil && len(fr.contract.AtCalls) > 0 {
+			fr.ghostAtCall(s, res)
+		}
 		if s.Type() != nil {
 			if tup, ok := s.Type().(*types.Tuple); ok {
 				if tup.Len() > 0 {
@@ -1988,4 +2007,82 @@ func (fr *Frame) mapFieldComp(v ssa.Value) string {
 		}
 	}
 	return ""
+}
+
+func (fr *Frame) ghostCell(name string) string {
+	return fmt.Sprintf("L.%d.%d.ghost.%s", fr.x.id, fr.id, name)
+}
+
+func calleeName(cc *ssa.CallCommon) string {
+	if cc.IsInvoke() {
+		return cc.Method.Name()
+	}
+	if f := cc.StaticCallee(); f != nil {
+		return f.String()
+	}
+	return ""
+}
+
+// callOrdinals: static numbering of the calls to each callee in source (block/instruction) order.
+func (fr *Frame) callOrdinal(call *ssa.Call, suffix string) int {
+	n := 0
+	for _, b := range fr.fn.Blocks {
+		for _, in := range b.Instrs {
+			if c, ok := in.(*ssa.Call); ok && strings.HasSuffix(calleeName(c.Common()), suffix) {
+				if c == call {
+					return n
+				}
+				n++
+			}
+		}
+	}
+	return -1
+}
+
+func (fr *Frame) ghostAtCall(call *ssa.Call, res []Term) {
+	name := calleeName(call.Common())
+	for _, ac := range fr.contract.AtCalls {
+		if !strings.HasSuffix(name, ac.Callee) || fr.callOrdinal(call, ac.Callee) != ac.N {
+			continue
+		}
+		vars := map[string]sval{}
+		sig := call.Common().Signature()
+		for i, r := range res {
+			t := sig.Results().At(i).Type()
+			vars[fmt.Sprintf("r%d", i)] = sval{t: r, typ: t, sort: sortOf(t)}
+		}
+		se := fr.specEnvFor(fr.cur, fr.entry, fr.mergeVars(vars), true)
+		se.bound = map[string]bool{}
+		for k := range vars {
+			se.bound[k] = true
+		}
+		v := se.eval(ac.Expr)
+		fr.cur.set(fr.ghostCell(ac.Var), fr.c().define("ghost."+ac.Var, compSorts[fr.ghostCell(ac.Var)], v.t))
+	}
+}
+
+func (fr *Frame) initGhosts() {
+	if fr.contract == nil {
+		return
+	}
+	for _, g := range fr.contract.GhostVars {
+		cn := fr.ghostCell(g.Name)
+		fr.x.compSort(cn, g.Sort)
+		se := fr.specEnvFor(fr.cur, nil, fr.mergeVars(nil), false)
+		fr.cur.set(cn, se.eval(g.Init).t)
+	}
+	// every AtCall must resolve (anchor check)
+	for _, ac := range fr.contract.AtCalls {
+		found := 0
+		for _, b := range fr.fn.Blocks {
+			for _, in := range b.Instrs {
+				if c, ok := in.(*ssa.Call); ok && strings.HasSuffix(calleeName(c.Common()), ac.Callee) {
+					found++
+				}
+			}
+		}
+		if found <= ac.N {
+			specFail("anchor-missing: call %s#%d not found (contract line %d)", ac.Callee, ac.N, ac.Line)
+		}
+	}
 }
